@@ -591,3 +591,91 @@ def _fresh(ck, p):
             ck.proved(rule, key, f.loc(t["ln"]), "the server's copy is read (%s) in the same pass that hands it to update_document%s" % (method(reads[0][1]), "" if not loops else ", inside the same loop iteration"))
         else:
             ck.proved(rule, key, f.loc(t["ln"]), "text does not come from the server's copy (notification text or file read)")
+
+
+# ---------------------------------------------------------------------------------------------------
+# the table of per-document state (Backend.doc_state): who addresses it with what, who takes entries out
+DOCMAP_KEYED = {"get", "get_mut", "entry", "remove", "remove_entry", "insert", "contains_key", "get_key_value"}
+DOCMAP_LOSSY = {"to_lowercase", "to_ascii_lowercase", "to_uppercase", "to_ascii_uppercase", "make_ascii_lowercase", "make_ascii_uppercase",
+                "trim", "trim_end", "trim_start", "trim_matches", "trim_end_matches", "trim_start_matches", "path", "to_file_path", "host_str", "set_fragment",
+                "set_query", "set_path", "join", "canonicalize", "replace", "replacen", "truncate", "split", "rsplit", "split_once", "rsplit_once",
+                "strip_prefix", "strip_suffix", "file_name", "file_stem", "with_extension", "parent", "to_lossy", "to_string_lossy", "from_utf8_lossy"}
+DOCMAP_PASS = {"clone", "borrow", "borrow_mut", "deref", "deref_mut", "as_ref", "as_mut", "parse", "next", "iter", "map", "unwrap", "expect", "ok", "from", "into",
+               "to_owned", "get_context", "branch", "from_residual", "ok_or", "ok_or_else", "map_err", "and_then", "as_str", "to_string", "try_from", "try_into", "cloned",
+               "get", "first", "into_iter", "unwrap_or_default", "from_str", "deserialize", "from_value", "as_deref", "take", "poll", "into_future", "new_unchecked", "lock",
+               "read", "write", "collect", "nth", "last", "peekable", "peek", "pop", "remove", "swap_remove", "drain", "values", "keys", "lock_owned", "maybe_done", "take_output"}
+
+
+def docmap_sites(p):
+    """(fn, bb, call terminator, method) for every method call whose receiver is the HashMap<Url, DocumentState>"""
+    out = []
+    for f in sorted(p.fns.values(), key=lambda g: g.name):
+        if not f.name.startswith("harper_ls::"):
+            continue
+        for bi, t in f.calls():
+            if not t["args"]:
+                continue
+            pl = place_of(t["args"][0])
+            ty = f.local_tystr(pl[0]) if pl else ""
+            if "HashMap<" in ty and "DocumentState" in ty and "Mutex" not in ty.split("HashMap<")[0]:
+                out.append((f, bi, t, method(t)))
+    return out
+
+
+def docmap_keys(ck, p, rule):
+    """C08: each open document has its own entry - the table is addressed by the URI as the client sent it"""
+    n = 0
+    k = {}
+    for f, bi, t, m in docmap_sites(p):
+        if m not in DOCMAP_KEYED or len(t["args"]) < 2:
+            continue
+        n += 1
+        ck.saw(f)
+        pv = Prov(f)
+        base = "%s:%s" % (keyname(p, f), m)
+        k[base] = k.get(base, 0) + 1
+        key = base if k[base] == 1 else "%s#%d" % (base, k[base])
+        names = sorted({last(norm(o[3] or o[2] or "")) for o in arg_roots(f, pv, t["args"][1]) if o[0] == "call"})
+        lossy = [x for x in names if x in DOCMAP_LOSSY]
+        other = [x for x in names if x not in DOCMAP_PASS and x not in DOCMAP_LOSSY and not x.startswith("{closure")]
+        if lossy:
+            ck.refuted(rule, key, f.loc(t["ln"]), "the table of open documents is addressed with a key that went through %s: two different URIs (two open documents) can be mapped to one entry, and then share text, diagnostics, code actions and the URI that edits are addressed to" % ", ".join(lossy))
+        elif other:
+            ck.undecided(rule, key, f.loc(t["ln"]), "the key of this access is computed through %s: whether it is still one key per URI is not decided" % ", ".join(other[:4]))
+        else:
+            ck.proved(rule, key, f.loc(t["ln"]), "keyed by the request's URI through copying conversions only")
+    ck.floor(rule, "keyed accesses to the table of open documents", n, 4)
+
+
+def docmap_lifetime(ck, p, rule):
+    """C14: the per-document state (it owns the ignored lints) lives as long as the document is open: no
+    function takes an entry out of the table and then builds the state for the same document anew"""
+    n = 0
+    k = {}
+    for f, bi, t, m in docmap_sites(p):
+        if m not in ("remove", "remove_entry", "clear", "drain", "insert"):
+            continue
+        n += 1
+        ck.saw(f)
+        cfg = Cfg(f)
+        base = "%s:%s" % (keyname(p, f), m)
+        k[base] = k.get(base, 0) + 1
+        key = base if k[base] == 1 else "%s#%d" % (base, k[base])
+        after = cfg.reachable_from(cfg.succ[bi])
+        rebuild = []
+        for b2, t2 in f.calls():
+            if b2 in after and b2 != bi:
+                nm = last(norm(inst_of(t2) or def_of(t2) or ""))
+                if nm in ("update_document", "update_document_from_file", "refresh_document") or (method(t2) in ("entry", "insert") and any(x[1] == b2 for x in docmap_sites_in(p, f))):
+                    rebuild.append("%s (%s)" % (nm or method(t2), f.loc(t2["ln"])))
+        if m == "insert":
+            ck.undecided(rule, key, f.loc(t["ln"]), "an entry of the table of open documents is overwritten; whether the state it replaces (ignored lints) is carried over is not decided")
+        elif rebuild:
+            ck.refuted(rule, key, f.loc(t["ln"]), "the document's state is taken out of the table and then built anew for the same document (%s): the new DocumentState starts with an empty ignore list, so every lint the user had ignored in this document is reported again although its text has not changed" % ", ".join(rebuild[:2]))
+        else:
+            ck.proved(rule, key, f.loc(t["ln"]), "the entry is taken out and nothing on the way out rebuilds it: the document's state ends here")
+    ck.floor(rule, "removals from the table of open documents", n, 2)
+
+
+def docmap_sites_in(p, f):
+    return [(g, b, t, m) for (g, b, t, m) in docmap_sites(p) if g is f]
